@@ -176,6 +176,20 @@ chk("C01",
     "TLA+ spec + TLC; spec->impl replay (compiled and executed) and impl->spec trace validation",
     "DESIGN.md §5 C01")
 
+chk("C10",
+    "The encoding function of spec/abi/Abi.tla (nullable pointer for &T / Box<T>; {union payload, bool is_ok} for everything "
+    "else, flag last, unit arms without payload) is checked by TLC for SpellingIndependent, NullNiche, FlagLast and UnitNoPayload "
+    "over all payloads; a flag-first negative model is refuted. TLC emits every payload x {parameter, return} x {Option, "
+    "DiplomatOption}, optional pointers, every Result arm combination and options in struct fields; pairs of spellings are "
+    "compiled with the real macro, declared by the real C backend and called from a sanitized C driver with identical values "
+    "(both arms forced): C declarations must be identical up to the method name, the tokens seen by C and by Rust must be "
+    "identical for the two spellings and equal to the spec's expectation (is_ok true exactly for Some/Ok, NULL exactly for absent "
+    "pointers), and the event log is validated by Trace_CallProtocol.tla.",
+    "Rides on the C01 harness (x86-64, gcc 12, ASan/UBSan). Struct fields admit only the DiplomatOption spelling for non-pointers "
+    "(C05), so pairs exist for parameter and return positions.",
+    "TLA+ spec + TLC invariants; spec->impl replay of paired spellings, compiled and executed; trace validation",
+    "DESIGN.md §5 C10")
+
 NOT_YET = {}
 
 
